@@ -48,7 +48,11 @@ struct DefaultGetEvent
 {
 	template <typename U, typename ...Args>
 	static E getEvent(U && e, Args && ...) {
-		return e;
+		// Always copy: `return e;` would move from `e` when it is an rvalue reference (implicit move,
+		// C++20 and compilers that apply it retroactively), but the caller forwards the same argument
+		// to the listeners afterwards.
+		const typename std::remove_reference<U>::type & source = e;
+		return source;
 	}
 };
 template <typename T, typename Key, bool> struct SelectGetEvent { using Type = T; };
